@@ -7,7 +7,19 @@ pub const HOSTS: usize = 2;
 
 /// Symbolic addresses used in traces: `h<i>v4`, `h<i>v6`, `lo4`, `lo6`, `any4`, `any6`.
 pub fn host_v4(h: usize) -> IpAddr {
-    IpAddr::V4(Ipv4Addr::new(10, 0, 0, 1 + h as u8))
+    // what the crate's DNS hands to the (h+1)-th name it sees: hosts are registered by name so
+    // that "host<h>:port" reaches the same address as the literal
+    IpAddr::V4(Ipv4Addr::new(192, 168, 0, 1 + h as u8))
+}
+pub fn host_name(h: usize) -> String {
+    format!("host{h}")
+}
+/// A DNS name for `ip` when it has one ("host<h>" for a host's v4 address, "localhost").
+pub fn name_of(ip: IpAddr) -> Option<String> {
+    if ip == IpAddr::V4(Ipv4Addr::LOCALHOST) {
+        return Some("localhost".into());
+    }
+    (0..8).find(|h| ip == host_v4(*h)).map(host_name)
 }
 pub fn host_v6(h: usize) -> IpAddr {
     IpAddr::V6(Ipv6Addr::new(0xfd00, 0, 0, 0, 0, 0, 0, 1 + h as u16))
